@@ -73,13 +73,26 @@ def run(ctx):
         except Exception as e:  # noqa
             ctx.count("construct_rejected")
             continue
+        inferred = False
+        if i % 3 == 0 and rng.random() < 0.5:
+            # the dictionary form of a graph as inference left it (annotations written by infer_types, in whatever
+            # value types it writes them, are part of the graph now)
+            try:
+                from core import quiet
+                with quiet():
+                    graph.infer_types()
+                inferred = True; case["inferred_first"] = True; ctx.count("inferred_first")
+            except Exception:
+                ctx.count("inference_raised"); continue
         before = compare.snapshot(graph)
         try:
             d = graph.to_dict()
-            c1 = {"op": "to_dict", "graph": g}
-            cases.append(c1); obs.append({"d": canon(d)}); reqs.append(c1)
-            c2 = {"op": "graph", "graph": g, "ops": ["dict_rt"]}
-            steps, _ = run_graph_ops(g, ["dict_rt"])
+            if not inferred:
+                c1 = {"op": "to_dict", "graph": g}
+                cases.append(c1); obs.append({"d": canon(d)}); reqs.append(c1)
+            ops = ["infer", "dict_rt"] if inferred else ["dict_rt"]
+            c2 = {"op": "graph", "graph": g, "ops": ops}
+            steps, _ = run_graph_ops(g, ops)
             cases2.append(c2); obs2.append({"steps": steps}); reqs2.append(c2)
         except Exception as e:  # noqa
             ctx.violate(case, "to_dict raised", {"site": "to_dict", "what": "raised"}, observed=err_name(e))
@@ -106,7 +119,9 @@ def run(ctx):
         except Exception as e:  # noqa
             ctx.violate(case, "from_dict(to_dict(g)) raised", {"site": "from_dict", "what": "raised"}, observed=err_name(e))
             continue
-        diff = compare.graph_diff(graph, g2, strict=True)
+        # (derived types are compared for graphs as constructed; after inference they hold what inference derived, which
+        # the dictionary form deliberately does not carry - the property compares types with fresh construction)
+        diff = compare.graph_diff(graph, g2, strict=True, types=not inferred)
         if diff:
             ctx.violate(case, "from_dict(to_dict(g)) is not strictly equivalent to g",
                         {"site": "from_dict", "what": "diff", "first": diff[0].split(":")[-1].strip()[:40]}, observed=diff[:5])
